@@ -17,6 +17,7 @@ FACETS = {
     "C10": "VRFK",
     "C19": "VRFK",
     "C18": "VRFK",
+    "C09": "VRFCTNK",
     "C14": "VRSCK",
     "C15": "VRSCTNK",
     "C16": "VRSEK",
